@@ -19,7 +19,7 @@ the real events, contents and index lookups at every step (F6 included).
 import os
 
 THEOREMS = ["IstioModel.C16.MonitorTheorems", "IstioModel.C16.RuntimeTheorems", "IstioModel.C16.IndexTheorems",
-            "IstioModel.C16.JoinTheorems"]
+            "IstioModel.C16.JoinTheorems", "IstioModel.C16.DisciplineTheorems"]
 
 F6_FP = "krt:many:key-moves-between-parents:new-parent-first"
 F6_WHAT = ("krt manyCollection loses an output key that moves to another parent input when the new parent is "
